@@ -301,7 +301,7 @@ func genTotalFormat(t *rapid.T) (string, string) {
 			if fairBit.Draw(t, "lit") {
 				sb.WriteString(uniPick(t, "piece", literals))
 			}
-			if uni(t, "hugep", 40) == 39 {
+			if uni(t, "hugep", 100) == 99 {
 				sb.WriteString(uniPick(t, "huge", hostileHuge))
 			} else {
 				sb.WriteString(uniPick(t, "hostile", hostile))
@@ -349,7 +349,8 @@ func genAnyArg(t *rapid.T) tengo.Object {
 		return uniPick(t, "starlike", []tengo.Object{&tengo.Int{Value: 70}, &tengo.Int{Value: -70}, &tengo.Int{Value: 17}, &tengo.Int{Value: -17},
 			&tengo.Int{Value: 999}, &tengo.Int{Value: 1001}, &tengo.Float{Value: 70}, &tengo.Int{Value: 65}, &tengo.Int{Value: 1000001},
 			&tengo.Char{Value: 70}, &tengo.String{Value: "70"}, tengo.TrueValue, &tengo.Int{Value: math.MinInt64}, &tengo.Int{Value: 3},
-			&tengo.Int{Value: 0}, &tengo.Int{Value: -1}, &tengo.Int{Value: 100000}, &tengo.Int{Value: 1000000}, &tengo.Int{Value: -1000000}})
+			&tengo.Int{Value: 0}, &tengo.Int{Value: -1}, &tengo.Int{Value: 2000}, &tengo.Int{Value: -1001},
+			&tengo.Int{Value: []int64{1000, 1000, 1000, 100000, 1000, 1000, 1000000, -1000000}[uni(t, "starhuge", 8)]}})
 	default:
 		n := rapid.IntRange(5, 40).Draw(t, "alen")
 		xs := make([]tengo.Object, n)
